@@ -184,8 +184,18 @@ def run_nodes(c):
 
 def sample_points(c, R, Z, n):
     rs = np.random.RandomState(1000 + c["id"])
-    Rp = R[0] + (R[-1] - R[0]) * rs.uniform(0.06, 0.94, n)
-    Zp = Z[0] + (Z[-1] - Z[0]) * rs.uniform(0.06, 0.94, n)
+
+    def frac():
+        # most points in the interior, a third within three per cent of an edge (the outermost half cell of the data included;
+        # 5e-4 of the domain is kept free for the finite-difference stencil) - seeded change C18_dct_edge_clip
+        u = rs.uniform(0.06, 0.94, n)
+        e = rs.uniform(0.0005, 0.03, n)
+        side = rs.rand(n) < 0.5
+        pick = rs.rand(n) < 0.33
+        return np.where(pick, np.where(side, e, 1.0 - e), u)
+
+    Rp = R[0] + (R[-1] - R[0]) * frac()
+    Zp = Z[0] + (Z[-1] - Z[0]) * frac()
     return Rp, Zp
 
 
